@@ -153,3 +153,48 @@ def chirality(pos):
         if abs(v) > abs(best):
             best = v
     return best
+
+
+def complete_hints(ppos, hints):
+    """the documented auto-completion of (axisp1, axisp2, opoint): both axis points absent -> farthest pair; one absent ->
+    the atom farthest from the given one; orientation point absent -> the atom farthest from the axis (n > 2)"""
+    p = np.asarray(ppos, float)
+    n = len(p)
+    a1, a2, o = hints
+    D = ((p[:, None, :] - p[None, :, :]) ** 2).sum(-1)
+    if a1 is None and a2 is None:
+        a1, a2 = [int(x) for x in np.unravel_index(np.argmax(D), D.shape)]
+    elif a1 is None or a2 is None:
+        a1 = a1 if a1 is not None else a2
+        a2 = int(np.argmax(D[a1]))
+    if n > 2 and o is None:
+        ax = p[a2] - p[a1]
+        v = p - p[a1]
+        perp = v - np.outer(v.dot(ax) / ax.dot(ax), ax)
+        d = (perp ** 2).sum(1)
+        o = int(np.nonzero(d == d.max())[0][0])
+    return a1, a2, o
+
+
+def anchored_residual(ppos, x, hints):
+    """max per-coordinate deviation left by the documented three-point alignment: first axis atom pinned, axis direction
+    aligned, then a rotation about the axis that brings the orientation atom's azimuth into place. Harness's own code."""
+    p = np.asarray(ppos, float)
+    x = np.asarray(x, float)
+    n = len(p)
+    if n == 1:
+        return 0.0
+    a1, a2, o = complete_hints(p, hints)
+    pp = p - p[a1]
+    xx = x - x[a1]
+    R1 = rotation_taking(pp[a2], xx[a2])
+    q = pp.dot(R1.T)
+    if n > 2:
+        ax = xx[a2] / np.linalg.norm(xx[a2])
+        u = q[o] - ax * q[o].dot(ax)
+        v = xx[o] - ax * xx[o].dot(ax)
+        if np.linalg.norm(u) > 1e-9 and np.linalg.norm(v) > 1e-9:
+            u, v = u / np.linalg.norm(u), v / np.linalg.norm(v)
+            ang = np.arctan2(np.dot(np.cross(u, v), ax), np.dot(u, v))
+            q = q.dot(rotation_about(ax, ang).T)
+    return float(np.abs(q - xx).max())
